@@ -22,6 +22,10 @@ CLAIMED = {
          "Proved: the three-form lookup returns container form, else pod form, else bare key, depends only on those three keys and is invariant under any permutation of a map with unique keys; the memory-qos/memtierd fold over ANY iteration order computes the order-free spec 'container-specific entry else pod-level entry' (effFold_spec), hence is permutation invariant and ignores entries addressed elsewhere; in memory-qos CreateContainer an explicitly annotated parameter ends up with its explicit value in every iteration order whenever the call succeeds. Tie: regenerated key forms/suffixes/override flags, and correspondence of the four real implementations (each evaluated repeatedly so Go's per-loop map order varies) against the model and against the precedence predicate computed from the raw map.",
          "String-level classification (strings.CutSuffix vs the model's classify) is tied by sampling only; container names without '/'; class-derived values come from a probe of the real code.",
          "DESIGN.md §6 C18"),
+ "C19": ("proof", "Lean 4 theorems for every glob function and subject (negation duality, joint keys, weight clamp, selection spec; validated=>never-fails partial + machine-checked refutation) + regenerated key/operator tables + correspondence on real cache objects",
+         "Proved: In/NotIn, Matches/MatchesNot, MatchesAny/MatchesNone, Exists/NotExist are exact negations for every key, value list, subject and glob function; a joint key evaluates to its sub-key values joined by the separator (unresolved ones keep an empty slot) and exists iff one resolves; user weights end in [-1000,1000] incl. MinInt32; selection: annotation names the type or is an error, else first matching type in order, else default; kube-system hits the implicit reserved type first. 'validated => never fails' is proved for the well-typed key grammar (partial) and REFUTED in general by a machine-checked witness (uid / pod/pod / pod/tags: known finding). Tie: regenerated operator list, validateKey scalar keys, both EvalKey key lists, QoS-as-string flag, weight cutoff; correspondence of Validate, ResolveRef, KeyValue, Evaluate on real containers/pods, parseFull weights, real chooseBalloonDef and fillBuiltinBalloonDefs.",
+         "filepath.Match and path.Clean are external parameters (Go results shipped per case); ASCII keys. Two defects repaired (fix: commit d05f710): pod/qosclass and leading-'/' keys validated but unresolvable.",
+         "DESIGN.md §6 C19"),
  "C20": ("proof", "Lean 4 theorems over an integer model + regenerated constants + exhaustive correspondence on the property's domain",
          "All five arithmetic clauses are Lean theorems for every input (shares round trip <=1/<=2, exact multiples of 125, quota exact from 10 mCPU, monotonicity, OOM table total and invertible for every capacity >= 1 MiB and every float-estimate behaviour within tolerance). The model is tied to the code by regenerated constants (obligation gen_consts_ok) and by running the real functions on every value of the property's domain (0..256000 mCPU, shares 2..262144) plus sampled OOM tables and estimateResourceRequirements cases; the driver also evaluates the property's predicates on the implementation's own values.",
          "Trusted: Lean kernel (+propext, Classical.choice, Quot.sound), the extractor, harness and driver; float64 == exact round-half-up is checked exhaustively on the domain, sampled outside; OOM table sampled over capacities 2^20..2^50.",
